@@ -7,6 +7,7 @@ import (
 	"encoding/binary"
 	"encoding/hex"
 	"fmt"
+	"math/big"
 	"math/rand"
 	"os"
 	"os/exec"
@@ -20,6 +21,7 @@ import (
 	"time"
 
 	"verifharness/common"
+	"verifharness/hdr"
 
 	"github.com/tokenized/bitcoin_reader/headers"
 	"github.com/tokenized/pkg/bitcoin"
@@ -235,6 +237,14 @@ type c15Canary struct {
 	s *Session
 }
 
+func reverse32(b []byte) []byte {
+	out := make([]byte, len(b))
+	for i := range b {
+		out[len(b)-1-i] = b[i]
+	}
+	return out
+}
+
 func newC15Repo() *headers.Repository {
 	repo := headers.NewRepository(headers.DefaultConfig(), common.NewMemStore())
 	repo.InitializeWithGenesis() // difficulty ENABLED: production configuration
@@ -268,9 +278,21 @@ func runC15Case(ctx context.Context, c C15Case, canary *Session) string {
 	// barrier: a ping is either answered (still in sync), or the node hangs up, or it keeps
 	// waiting for bytes the input declared but never sent
 	s.PingPong(0x5151515151515151, 1500*time.Millisecond)
-	// repositories unaffected: nothing a hostile input contains is a valid mainnet header
-	if h := repo.Height(); h != 0 {
-		return fmt.Sprintf("violation:repository-changed:height %d after hostile input", h)
+	// repositories unaffected: the only way an input may change the header repository is by
+	// containing a header the repository's acceptance rule admits (known parent, well-formed
+	// bits, hash <= the target its bits encode; below height 556767 the required-bits rule does
+	// not apply) -- a seeded bits value with exponent >= 30 and a lucky nonce is such a header
+	for h := repo.Height(); h > 0; h-- {
+		hd, err := repo.Header(ctx, h)
+		prev, _ := repo.Hash(ctx, h-1)
+		if err != nil || hd == nil || prev == nil {
+			return fmt.Sprintf("violation:repository-changed:height %d after hostile input, header unreadable", h)
+		}
+		target, neg, over := hdr.RefCompactTarget(hd.Bits)
+		hv := new(big.Int).SetBytes(reverse32(hd.BlockHash()[:]))
+		if !hd.PrevBlock.Equal(prev) || neg || over || target.Sign() == 0 || hv.Cmp(target) > 0 {
+			return fmt.Sprintf("violation:repository-changed:height %d after hostile input (bits %08x, hash above target or unlinked)", h, hd.Bits)
+		}
 	}
 	// the peer hangs up; Run must return
 	s.Peer.CloseConn()
